@@ -198,8 +198,10 @@ def run_one_shard(mod, shard, tier, seed, record_obs=False):
     return acc.result()
 
 
-def _worker_init(root, mem_gib):
+def _worker_init(root, mem_gib, run_tmp=None):
     os.environ["NPS_ROOT"] = root
+    if run_tmp:
+        os.environ["VERIF_RUN_TMP"] = run_tmp
     for k in ("OMP_NUM_THREADS", "MKL_NUM_THREADS", "OPENBLAS_NUM_THREADS"):
         os.environ[k] = "1"
     if VERIF not in sys.path:
@@ -256,13 +258,18 @@ def run_check(prop, tier, jobs=None, seed=None, out=sys.stdout):
     ctx = mp.get_context("spawn")
     results = [None] * len(shards)
     errors = []
-    with ctx.Pool(jobs, initializer=_worker_init, initargs=(root, 8.0), maxtasksperchild=None) as pool:
-        it = pool.imap_unordered(_worker_tagged, [(i, prop, shards[i], tier, seed) for i in order], chunksize=1)
-        for i, (status, r) in it:
-            if status == "ok":
-                results[i] = r
-            else:
-                errors.append(r)
+    import tempfile, shutil
+    run_tmp = tempfile.mkdtemp(prefix="nps_verif_run_")      # scratch files of this run (save/load round trips); removed below
+    try:
+        with ctx.Pool(jobs, initializer=_worker_init, initargs=(root, 8.0, run_tmp), maxtasksperchild=None) as pool:
+            it = pool.imap_unordered(_worker_tagged, [(i, prop, shards[i], tier, seed) for i in order], chunksize=1)
+            for i, (status, r) in it:
+                if status == "ok":
+                    results[i] = r
+                else:
+                    errors.append(r)
+    finally:
+        shutil.rmtree(run_tmp, ignore_errors=True)
     if errors:
         print("HARNESS-ERROR: worker failed:\n" + errors[0], file=out)
         return 2
